@@ -260,9 +260,10 @@ def solve_kwargs(o):
                 failures=o['failures'], errors=o['errors'], catch_first_error=o['catch_first_error'])
 
 
-def observe_state(m, nvars):
+def observe_state(m, nvars, names=None):
+    names = names or ['V%d' % i for i in range(nvars)]
     return {
-        'vals': [[lib.fhex(x) for x in m.__dict__['_V%d' % i]] for i in range(nvars)],
+        'vals': [[lib.fhex(x) for x in m.__dict__['_' + nm]] for nm in names],
         'status': [str(x) for x in m.__dict__['_status']],
         'iters': [int(x) for x in m.__dict__['_iterations']],
         'log': m.__dict__['_evlog'],
@@ -303,12 +304,19 @@ def impl_solve(case):
     import scripted
     n = case['n']
     cls = scripted.make_class(fsic.BaseModel, case['nvars'], case['check'], case['endo'])
-    span = make_span(case['span_type'], n)
-    kw = solve_kwargs(case['opts'])
 
     def fresh():
         return scripted.instantiate(cls, make_span(case['span_type'], n), case['vals'], case['status'], case['iters'], case['scripts'],
                                     lags=case.get('lags', 0), leads=case.get('leads', 0))
+    obs = run_solve_and_twin(case, fresh, case['nvars'], None)
+    del obs['_m']
+    return obs
+
+
+def run_solve_and_twin(case, fresh, nvars, names):
+    n = case['n']
+    span = make_span(case['span_type'], n)
+    kw = solve_kwargs(case['opts'])
     ids = span_ids(span, n)
 
     def lab_id(lab):
@@ -330,7 +338,7 @@ def impl_solve(case):
         c = e.__cause__
         out = ['raise', type(e).__name__, type(c).__name__ if c is not None else None]
     obs = {'out': out}
-    obs.update(observe_state(m, case['nvars']))
+    obs.update(observe_state(m, nvars, names))
     # the span lookup's answers (pandas spans: the model's `locate` oracle is this table; other spans: checked against it)
     loc = {}
     probe = fresh()
@@ -357,8 +365,9 @@ def impl_solve(case):
                 tout = ['raise', type(e).__name__, type(c).__name__ if c is not None else None, t]
                 break
         twin = {'out': tout if tout is not None else ['ret', flags]}
-        twin.update(observe_state(tw, case['nvars']))
+        twin.update(observe_state(tw, nvars, names))
         obs['twin'] = twin
+    obs['_m'] = m
     return obs
 
 
@@ -414,3 +423,72 @@ def solve_case(span_type='range', n=4, start=None, end=None, entry='solve', nvar
 
 def settle_passes(var, values):
     return [[['set', var, lib.fhex(v)]] for v in values]
+
+
+# --------------------------------------------------------------------------- parser-built models under solve()
+def recording_class(Base):
+    """Subclass of a parser-built model that logs hook / pass events and the column of period t before and after every pass
+    (same bookkeeping keys as the scripted models)."""
+    class Rec(Base):
+        def _col(self, t):
+            return [float(self.__dict__['_' + nm][t]) for nm in self.names]
+
+        def solve_t_before(self, t, *, errors='raise', catch_first_error=True, iteration=None, **kwargs):
+            self.__dict__['_evlog'].append(['before', int(t), int(iteration)])
+            super().solve_t_before(t, errors=errors, catch_first_error=catch_first_error, iteration=iteration, **kwargs)
+
+        def _evaluate(self, t, *, errors='raise', catch_first_error=True, iteration=None, **kwargs):
+            self.__dict__['_evlog'].append(['pass', int(t), int(iteration)])
+            try:
+                super()._evaluate(t, errors=errors, catch_first_error=catch_first_error, iteration=iteration, **kwargs)
+            except Exception as e:
+                self.__dict__['_raised'].append(['pass', int(t), int(iteration), type(e).__name__])
+                raise
+            finally:
+                self.__dict__['_cols'].append([int(t), int(iteration), self._col(t)])
+                self.__dict__['_passvecs'].append([float(self.__dict__['_' + nm][t]) for nm in self.check])
+
+        def solve_t_after(self, t, *, errors='raise', catch_first_error=True, iteration=None, **kwargs):
+            self.__dict__['_evlog'].append(['after', int(t), int(iteration)])
+            super().solve_t_after(t, errors=errors, catch_first_error=catch_first_error, iteration=iteration, **kwargs)
+    return Rec
+
+
+def impl_solve_parsed(case):
+    """solve() / solve_period() of a model built by the real parser (class-level LAGS / LEADS from its equations) and the twin
+    loop of solve_t; the columns recorded after every pass of every period become the script of the Coq model."""
+    import fsic
+    import scripted
+    n = case['n']
+    Rec = recording_class(fsic.build_model(fsic.parse_model(case['equations'])))
+
+    def fresh():
+        m = Rec(make_span(case['span_type'], n))
+        for nm, vals in case['init'].items():
+            if nm in m.names:
+                m.__dict__['_' + nm][:] = [lib.unhex(x) for x in vals]
+        for k in ('_evlog', '_passvecs', '_raised', '_cols'):
+            m.__dict__[k] = []
+        return m
+    m0 = fresh()
+    names = list(m0.names)
+    vals0 = [[lib.fhex(x) for x in m0.__dict__['_' + nm]] for nm in names]
+    c2 = dict(case, lags=int(m0.lags), leads=int(m0.leads))
+    obs = run_solve_and_twin(c2, fresh, len(names), names)
+    m = obs.pop('_m')
+    raised = {(r[1] if r[1] >= 0 else r[1] + n, r[2]): r[3] for r in m.__dict__['_raised']}
+    scripts = {}
+    for t, k, colv in m.__dict__['_cols']:
+        p = t if t >= 0 else t + n
+        acts = [['set', i, lib.fhex(x)] for i, x in enumerate(colv)]
+        if (p, k) in raised:
+            acts.append(['raise', scripted.CAUSE_TAG.get(raised[(p, k)], 99)])
+        passes = scripts.setdefault(str(p), {'passes': []})['passes']
+        while len(passes) < k - 1:
+            passes.append([])
+        passes.append(acts)
+    obs['as_scripted'] = {'nvars': len(names), 'check': [names.index(x) for x in m.check], 'endo': [names.index(x) for x in m.endogenous],
+                          'lags': int(m0.lags), 'leads': int(m0.leads), 'n': n, 'vals': vals0, 'status': ['-'] * n, 'iters': [-1] * n,
+                          'opts': case['opts'], 'scripts': scripts, 'entry': case['entry'], 'span_type': case['span_type'],
+                          'start': case['start'], 'end': case['end'], 'kind': 'parsed'}
+    return obs
